@@ -1,2 +1,3 @@
 pub mod args;
+pub mod trace;
 pub mod wire;
